@@ -106,6 +106,14 @@ CLAIMED.update({
         design="7/C02, 6"),
 })
 
+CLAIMED.update({
+    "C15": dict(
+        text="PARTIAL, and REFUTED at full strength on the unchanged tree (known finding F-condleak, reported as KNOWN-FINDING; any disagreement outside its class is a VIOLATION). Machine-checked (Coq, closed): the reference semantics of (?(cond)yes|no) and (?(N)) is the documented behaviour - condition tried once, yes continues from its first result without ever falling back to no, otherwise no from the original state (C15_reference_conditional, C15_reference_group_exists); (?(N)) alone is inside the scope of the end-to-end theorem, so wherever it appears (loops, atomic groups, look-arounds) the model VM reports exactly the reference result (C15_exists_condition, with a non-vacuity example under an atomic group); and 'results equal the reference wherever the conditional appears' is refuted on the faithful model by computation for a condition nested in a condition: the lowering leaves BeginAtomic's count on the auxiliary stack on the false path (C15_nested_conditional_refuted; the same witness is replayed on the real crate). The property is evaluated on the real crate: the C01 grammar extended with both conditional forms at every nesting position against the extracted reference semantics, ties T2/T3 on the same patterns.",
+        note="NOT proved: that a conditional OUTSIDE every atomic cut (atomic group, hard look-around, enclosing condition) is compiled correctly - the leak is harmless there, but the compiler-correctness induction would need an auxiliary-stack relation that tolerates leaked entries (described in DESIGN.md as the next step). Parsing of the conditional forms is tied by T1.",
+        technique="Coq: definitional reading of the reference, end-to-end theorem instance for (?(N)), refutation witness by vm_compute + reference differential on the real crate with a known-finding class",
+        design="7/C15, 8"),
+})
+
 PENDING_REASON = "check not built yet in this revision (see DESIGN.md section 12 build order); not claimed until its theorem and correspondence check exist"
 
 
